@@ -110,6 +110,7 @@ def check_C05(report, tier, seed):
     engine_check("C05", report, tier, seed)
     import suites_engine as E0
     E0.inbound_chunking_family(report, "C05")
+    E0.inbound_qos2_sessions_family(report, "C05")
     import suites_client as SC
     SC.suite_client_inbound(report, tier, seed, "C05")
     import suites_drivers as SD
